@@ -66,9 +66,12 @@ def user_prim(name):
 
 
 USER_TYPE = {'u1': 1, 'u2': 2, 'u3': 3, 'u4': 4, 'u5': 5, 'u6': 6, 'u7': 7}
-ALPHABET = ['p1', 'p2', 'p3', 'p4', 'p5', 'p6', 'p7', 'p4part', 'p4rest', 'pbad', 'pclose', 'idle',
+ALPHABET = ['p1', 'p2', 'p3', 'p4', 'p5', 'p6', 'p7', 'p4part', 'p4rest', 'pbad', 'pclose', 'preset', 'idle',
             'u2', 'u3', 'u4', 'u5', 'u6', 'u7']
-PEER_EVENTS = ['p1', 'p2', 'p3', 'p4', 'p5', 'p6', 'p7', 'p4part', 'p4rest', 'pbad', 'pclose']
+# 'preset': the peer resets the connection (RST): reads fail with ECONNRESET once the buffered bytes are consumed, writes
+# fail at once.  For the protocol machine that is a transport connection closed indication (Evt17); what the machine
+# "sends" on a connection that has already been reset reaches nobody and is not compared.
+PEER_EVENTS = ['p1', 'p2', 'p3', 'p4', 'p5', 'p6', 'p7', 'p4part', 'p4rest', 'pbad', 'pclose', 'preset']
 ARTIM_LIMIT = 10            # seconds (dulprovider.Timer(10)); PS3.8 leaves the value to the implementation
 
 
@@ -79,10 +82,12 @@ class StepSocket(sim.SimSocket):
         self.eof = False
 
     def readable(self):
-        return bool(self.inbox) or self.eof
+        return bool(self.inbox) or self.eof or self.peer_reset
 
-    def recv(self, n):
+    def recv(self, n, flags=0):
         import socket as _socket
+        if flags & _socket.MSG_WAITALL:
+            return sim.wait_all(self, n)
         if self.closed:
             raise _socket.error('closed')
         if self.inbox:
@@ -91,6 +96,9 @@ class StepSocket(sim.SimSocket):
                 self.inbox.appendleft(seg[n:])
                 seg = seg[:n]
             return seg
+        if self.peer_reset:
+            import errno
+            raise _socket.error(errno.ECONNRESET, 'Connection reset by peer')
         if self.eof:
             return b''
         raise api.Hang('recv() would block for ever')
@@ -133,7 +141,7 @@ class Stepper(object):
 
     def pending(self):
         p = self.prov
-        if p.dul_socket is not None and (self.sock.inbox or self.sock.eof):
+        if p.dul_socket is not None and (self.sock.inbox or self.sock.eof or self.sock.peer_reset):
             return True
         if not p.from_service_user.empty() or p.dimse_gen is not None:
             return True
@@ -156,6 +164,8 @@ class Stepper(object):
             self.sock.inbox.append(PEER[name])
         elif name == 'pclose':
             self.sock.eof = True
+        elif name == 'preset':
+            self.sock.peer_reset = True
         elif name == 'expire':
             self.clock.now = self.clock.now + 11
         elif name == 'tick':
@@ -176,6 +186,8 @@ class Stepper(object):
         seg = PEER[first]
         if second == 'pclose':
             self.sock.eof = True
+        elif second == 'preset':
+            self.sock.peer_reset = True
         else:
             seg = seg + PEER[second]
         self.sock.inbox.append(seg)
@@ -195,10 +207,10 @@ class Stepper(object):
 def ref_apply(r, name):
     """apply environment event `name` to the reference machine -> (sent types, indicated kinds) or None if the event
     cannot occur / is not legal now"""
-    if name in PEER or name == 'pclose':
+    if name in PEER or name in ('pclose', 'preset'):
         if not r.transport:
             return None
-        if name == 'pclose':
+        if name in ('pclose', 'preset'):
             return r.step(17)
         if name == 'pbad':
             return r.step(19)
@@ -330,7 +342,7 @@ def ref_advance(r, dt):
              'mid-message; requestor Sta1,5,6,7,9,11,13): every sequence of 2 (quick) / 3 (thorough) steps, each step = '
              'the clock advances by a SYMBOLIC amount dt in 0..30 s (ARTIM expiry decided by the solver against the '
              'instant of the last start / restart of the reference timer), then one event chosen by a symbolic selector '
-             'from the 19-event alphabet (events that cannot occur / are not legal in the reference state are '
+             'from the 20-event alphabet (incl. a connection reset) (events that cannot occur / are not legal in the reference state are '
              'skipped); provider compared with the reference machine after every advance and every event',
       family=[dict(start=k) for k in sorted(PREFIX)], timeout=400, thorough_timeout=2400)
 def lockstep(e1: int, e2: int, e3: int, dt1: int, dt2: int, dt3: int) -> bool:
@@ -378,6 +390,8 @@ def ref_apply_glued(r, first, second):
     a = ref_apply(r, first)
     if a is None:
         return None
+    if second == 'preset':
+        a = ([], a[1])                    # nothing written after the reset reaches the peer: not compared
     if not r.transport:
         return a                          # the second event is never looked at
     b = ref_apply(r, second)
@@ -387,13 +401,13 @@ def ref_apply_glued(r, first, second):
 
 
 @cond(bounds='from each of the 16 start states: every ordered PAIR of peer events (7 PDU types, partial message / rest, '
-             'unrecognised PDU, close; symbolic selectors) delivered in ONE transport segment, followed by one further '
+             'unrecognised PDU, close, connection reset; symbolic selectors) delivered in ONE transport segment, followed by one further '
              'event of the full alphabet (thorough tier); compared with the reference machine handling them one after '
              'the other (bytes behind a PDU that ends the association are discarded)',
       family=[dict(start=k) for k in sorted(PREFIX) if k != 'req_sta1'], timeout=300, thorough_timeout=1800)
 def glued(e1: int, e2: int, e3: int) -> bool:
     """
-    pre: 0 <= e1 < len(PEER_EVENTS) - 1 and 0 <= e2 < len(PEER_EVENTS) and 0 <= e3 < len(ALPHABET)
+    pre: 0 <= e1 < len(PEER_EVENTS) - 2 and 0 <= e2 < len(PEER_EVENTS) and 0 <= e3 < len(ALPHABET)
     pre: _depth() == 3 or e3 == 0
     post: _
     """
@@ -401,7 +415,7 @@ def glued(e1: int, e2: int, e3: int) -> bool:
         st, r, ok = start(fam('start'))
     if not ok:
         return False
-    first = PEER_EVENTS[pick(e1, 0, len(PEER_EVENTS) - 2)]
+    first = PEER_EVENTS[pick(e1, 0, len(PEER_EVENTS) - 3)]
     second = PEER_EVENTS[pick(e2, 0, len(PEER_EVENTS) - 1)]
     try:
         exp = ref_apply_glued(r, first, second)
